@@ -157,3 +157,8 @@ def x_iadd_subscript(items: list, v: int):
     holder = [a, box]
     holder[0] += [v]
     return (holder[0] is a, list(a), len(holder))
+
+
+def x_minmax_single(a: int):
+    # max / min of a one-element list is that element
+    return (max([a]), min([a]), max([a, a + 1]))
